@@ -18,8 +18,17 @@ order); `Updatable.clear` / `update` / `updatesome`.
 
 Dropped (not modelled, listed in `DROPPED_STMTS`): `Module.__init__(...)`, the state-dict hook of `Accumulator`
 (`sdhook` and its registration), the dynamic `self.__class__ = type(...)` of `Updater.__init__` (property sugar
-`updater.<name>`; `getattr(self.updater, p)` in `Updatable.updatesome` is read through `Updater._getacc_`, which is
-what the generated property calls), doc strings, and `**kwargs` that are only handed on to other translated methods.
+`updater.<name>`: `getattr(self.updater, p)` in `Updatable.updatesome` is the prelude primitive `dynGetattr`, which
+models the generated property — `_getacc_` returns `self.updates_[attr]`, any other name is an `AttributeError`;
+`_getacc_` / `_setacc_` / `_delacc_` themselves and the `updater` setter / deleter are not translated), doc strings,
+and `**kwargs` that are only handed on to other translated methods.
+
+Objects are references.  A method called on a sub-object is run on the sub-object's state and written back, also
+when it raises: `subCall` for an accumulator fetched from `self.updates_[k]`, `forValues` for
+`for acc in self.updates_.values(): acc.m(…)`, `updaterCall` for `self.updater…` of an `Updatable` (the rest of the
+expression is translated as a program of the updater, `self.updater` ↦ `self`; the updater's weak reference designates
+the module itself, as `Model/Updater.lean` assumes).  A strong reference obtained from `self._parent_module()` reads and
+writes the referent through the state (`refGetattr` / `refSetattr`).
 
 Exceptions keep Python's semantics: a program is a `Prog σ ρ = Except (Err × σ) (σ × ρ)` — the error side carries
 the state at the raise point.  Every raising primitive is bound by its own `let t_ ← …` in Python's evaluation order
